@@ -52,6 +52,9 @@ CHECKS = {
  "C14": dict(level="model_checking", technique="explicit-state exploration of the in-process cluster with per-link message counters and a step budget",
    text="Every client-visible command (22 well-formed commands; none-, arbiter- and newer-strategy databases) is issued once on every node of a settled 2-node (quick) / 2- and 3-node (thorough) cluster; all delivery orders are explored with a step budget of 120 (about 6x the longest legitimate exchange). In every state: forwards to the primary <= 1, copies <= secondaries, acks <= copies, no request from a secondary to a non-primary; every path must reach silence with every copy acknowledged.",
    note="ok/error transport replies are not counted. Known findings: resolve is replicated as two messages plus a marker forward per secondary (finite).", design="7/C14"),
+ "C13": dict(level="model_checking", technique="explicit-state BFS over writes / arbiter connect / disconnect / resolve on a single node (SEQ) + explicit-state exploration of a 2-node cluster with the arbiter on either node (NET)",
+   text="Single node: all sequences up to the bound over set / stale set-safe / fresh set-safe on two keys, arbiter connect, arbiter disconnect, resolve of the oldest or of the newest outstanding notice (echoing its op id and version): a conflicting write is reported, never applied, recorded under $conflicts_<key>_<id> once an arbiter has registered, delivered exactly once to the connected arbiter, later writes queue; a new arbiter gets exactly the unresolved notices; after the last resolution the key holds it and is writable, nothing pending; a key never leaves conflict state early. Cluster: arbiter on the primary or on the secondary x conflict on the primary or on the secondary, all delivery orders: every recorded conflict reaches the arbiter, and after it is answered all replicas agree, nothing is pending, the key is writable.",
+   note="Known findings: arbiter registration is node-local (conflicts on another node are answered 'no arbiter').", design="7/C13"),
 }
 
 def main():
